@@ -9,7 +9,7 @@ package store
 // types do not satisfy SInv (user-defined stores are outside the verified closure, assumption A-ENC).
 //@ vfun SView(x Store, k int) real := is(x, *SparseStore) ? MView(as(x, *SparseStore), k) : DView(as(x, *DenseStore), k)
 //@ fun STot(x Store) real := is(x, *SparseStore) ? MTot(as(x, *SparseStore)) : as(x, *DenseStore).count
-//@ pred SInv(x Store) := x != nil && (is(x, *SparseStore) ? MInv(as(x, *SparseStore)) : (is(x, *DenseStore) ? DInv(as(x, *DenseStore)) : (is(x, *CollapsingLowestDenseStore) && CLInv(as(x, *CollapsingLowestDenseStore)))))
+//@ pred SInv(x Store) := x != nil && (is(x, *SparseStore) ? MInv(as(x, *SparseStore)) : (is(x, *DenseStore) ? DInv(as(x, *DenseStore)) : (is(x, *CollapsingLowestDenseStore) ? CLInv(as(x, *CollapsingLowestDenseStore)) : (is(x, *CollapsingHighestDenseStore) && CHInv(as(x, *CollapsingHighestDenseStore))))))
 // Exact stores keep every index apart (the collapsing stores do not).
 //@ pred SExact(x Store) := is(x, *SparseStore) || is(x, *DenseStore)
 
@@ -101,7 +101,7 @@ package store
 //@   modifies everything()
 
 // dynamic types admitted by SInv (refinement of the interface contracts is checked for these)
-//@ covers DenseStore SparseStore CollapsingLowestDenseStore
+//@ covers DenseStore SparseStore CollapsingLowestDenseStore CollapsingHighestDenseStore
 
 // The view of a store as a logical array, and the bridge between the stored total and the sum of the view.
 //@ fun SViewArr(x Store) array_real := lambda k int :: SView(x, k)
